@@ -606,3 +606,193 @@ func H_C02_functions_objects() {
 	}
 	vC02GroupN("fn", g, nsym)
 }
+
+// exceptions: payload and kind of what is thrown must not depend on where the throw is compiled
+var vC02Exc = [][]string{
+	{ // caught payload
+		"try { throw 1001 } catch (e) { e }",
+		"(function(){ try { throw 1001 } catch (e) { return e } })()",
+		"var r; try { (function(){ throw 1001 })() } catch (e) { r = e } r",
+		"try { try { throw 1001 } finally { 5 } } catch (e) { e }",
+		"var t = 1001; try { throw t } catch (e) { e }",
+		"try { (() => { throw 1001 })() } catch (e) { e }",
+		"try { eval('throw a') } catch (e) { e }; var a = 1001; try { eval('throw a') } catch (e) { e }",
+	},
+	{ // payload escaping the program
+		"throw 1001",
+		"(function(){ throw 1001 })()",
+		"var t = 1001; throw t",
+		"try { throw 1001 } finally { 5 }",
+		"{ let t = 1001; (() => { throw t })() }",
+		"if (true) throw 1001",
+	},
+	{ // a throw in a finally block overrides the pending completion
+		"try { try { throw 1002 } finally { throw 1001 } } catch (e) { e }",
+		"try { (function(){ try { return 1002 } finally { throw 1001 } })() } catch (e) { e }",
+		"try { l: try { break l } finally { throw 1001 } } catch (e) { e }",
+		"try { throw 1001 } catch (e) { e }",
+	},
+	{ // assignment to a const: TypeError wherever the binding lives
+		"const k = 1001; k = 1002",
+		"(function(){ const k = 1001; k = 1002 })()",
+		"{ const k = 1001; (function(){ k = 1002 })() }",
+		"const k = 1001; eval('k = 1002')",
+	},
+}
+
+func H_C02_exceptions() {
+	k := vBound("EXC0") + vChoice("exc", vBound("EXCS"))
+	g := vC02Exc[k]
+	if vChoice("strict", 2) == 1 {
+		s := make([]string, len(g))
+		for i := range g {
+			s[i] = "'use strict'; " + g[i]
+		}
+		g = s
+	}
+	nsym := 1
+	if k == 2 {
+		nsym = 2
+	}
+	vC02GroupT("exc", g, nsym, k == 1 || k == 3)
+}
+
+// ---------------------------------------------------------------------
+// H02.7: the definitional half for expression templates over Numbers: the completion value of the
+// program - with literal operands, with global variables, and inside a function - is the value ECMA-262
+// defines (reference on the bit patterns: ToBoolean, IEEE comparisons, ToInt32/ToUint32 for the bitwise
+// operators, unary operators).
+
+func refC02Truthy(bits uint64) bool {
+	mag := bits &^ (1 << 63)
+	return mag != 0 && mag <= 0x7ff0000000000000
+}
+
+type vC02Ref struct {
+	kind int // 0 number (bits), 1 boolean, 2 string "number", 3 undefined
+	bits uint64
+	b    bool
+}
+
+func vC02RefEval(k int, a, b, c uint64) vC02Ref {
+	fa, fb := math.Float64frombits(a), math.Float64frombits(b)
+	num := func(x uint64) vC02Ref { return vC02Ref{kind: 0, bits: x} }
+	boolean := func(x bool) vC02Ref { return vC02Ref{kind: 1, b: x} }
+	i32 := func(x int32) vC02Ref { return num(math.Float64bits(float64(x))) }
+	switch k {
+	case 0: // a ? b : c
+		if refC02Truthy(a) {
+			return num(b)
+		}
+		return num(c)
+	case 1: // a && b
+		if refC02Truthy(a) {
+			return num(b)
+		}
+		return num(a)
+	case 2: // a || b
+		if refC02Truthy(a) {
+			return num(a)
+		}
+		return num(b)
+	case 3: // a ?? b
+		return num(a)
+	case 4: // !a
+		return boolean(!refC02Truthy(a))
+	case 5: // -a
+		return num(a ^ (1 << 63))
+	case 6: // +a
+		return num(a)
+	case 7: // ~a
+		return i32(^refToInt32(a))
+	case 8: // typeof a
+		return vC02Ref{kind: 2}
+	case 9: // void a
+		return vC02Ref{kind: 3}
+	case 10: // (a, b)
+		return num(b)
+	case 11:
+		return boolean(fa < fb)
+	case 12:
+		return boolean(fa <= fb)
+	case 13:
+		return boolean(fa == fb)
+	case 14:
+		return boolean(fa == fb)
+	case 15:
+		return boolean(fa != fb)
+	case 16:
+		return i32(refToInt32(a) & refToInt32(b))
+	case 17:
+		return i32(refToInt32(a) | refToInt32(b))
+	case 18:
+		return i32(refToInt32(a) ^ refToInt32(b))
+	case 19:
+		return i32(refToInt32(a) << (refToUint32(b) & 31))
+	case 20:
+		return i32(refToInt32(a) >> (refToUint32(b) & 31))
+	default:
+		return num(math.Float64bits(float64(refToUint32(a) >> (refToUint32(b) & 31))))
+	}
+}
+
+var vC02RefExprs = []string{
+	"a ? b : c", "a && b", "a || b", "a ?? b", "!a", "-a", "+a", "~a", "typeof a", "void a", "(a, b)",
+	"a < b", "a <= b", "a == b", "a === b", "a != b", "a & b", "a | b", "a ^ b", "a << b", "a >> b", "a >>> b",
+}
+
+func vC02NumberBits(x interface{}) uint64 {
+	switch n := x.(type) {
+	case int64:
+		return math.Float64bits(float64(n))
+	case float64:
+		return math.Float64bits(n)
+	}
+	panic("vC02NumberBits")
+}
+
+func H_C02_expr_vs_reference() {
+	k := vBound("REF0") + vChoice("expr", vBound("REFS"))
+	e := vC02RefExprs[k]
+	binary := k >= 10 || k <= 3
+	vals := vC02Vals{1001: vC02Number("A")}
+	bBits := math.Float64bits(1002)
+	if binary {
+		vals[1002] = vC02Number("B")
+		bBits = vC02NumberBits(vals[1002])
+	}
+	want := vC02RefEval(k, vC02NumberBits(vals[1001]), bBits, math.Float64bits(1003))
+	lit := vC02Subst(e, "1001", "1002", "1003")
+	progs := []string{
+		lit,
+		"var a = 1001, b = 1002, c = 1003; " + e,
+		"(function(a, b, c){ 'use strict'; return " + e + " })(1001, 1002, 1003)",
+	}
+	for _, src := range progs {
+		o := vC02Run(src, vals)
+		vAssert("ref:no-throw", !o.threw)
+		if o.threw {
+			continue
+		}
+		switch want.kind {
+		case 0:
+			_, isI := o.val.(valueInt)
+			_, isF := o.val.(valueFloat)
+			vAssert("ref:is-number", isI || isF)
+			if isI || isF {
+				wb := want.bits
+				if wb&^(1<<63) > 0x7ff0000000000000 {
+					wb = 0x7ff8000000000001
+				}
+				vAssert("ref:number==spec", vC02NumBits(o.val) == wb)
+			}
+		case 1:
+			vAssert("ref:boolean==spec", o.val == valueBool(want.b))
+		case 2:
+			s, isS := o.val.(String)
+			vAssert("ref:typeof==number", isS && s.SameAs(asciiString("number")))
+		default:
+			vAssert("ref:undefined", o.val == _undefined)
+		}
+	}
+}
